@@ -20,13 +20,23 @@ class PT(asyncio.tasks._PyTask):
 
 
 class Real:
-    def __init__(self, wait):
+    def __init__(self, wait, retain=False, init=()):
         from aiorpcx.curio import TaskGroup
         self.loop = StepLoop()
         asyncio.set_event_loop(self.loop)
         self.loop.set_task_factory(lambda loop, coro: PT(coro, loop=loop))
-        self.g = TaskGroup(wait=POL[wait])
         self.ids = {}
+        self.retain = retain
+        self.accepted_nd = set()          # non-daemon members the group accepted
+        # members handed to the constructor: futures that are already finished
+        self.init_ids = []
+        futs = []
+        for k, (dm, oc) in enumerate(init):
+            futs.append(self.mk_done(3000 + k, dm, oc))
+            self.init_ids.append(3000 + k)
+            if not dm:
+                self.accepted_nd.add(3000 + k)
+        self.g = TaskGroup(futs, wait=POL[wait], retain=retain)
         self.go, self.go2 = {}, {}
         self.J = None
         self.nspawn = 0
@@ -60,7 +70,40 @@ class Real:
             return instr[1]
         raise KeyError
 
+    def mk_done(self, tid, daemon, oc):
+        """a future that has already finished with the given outcome"""
+        f = self.loop.create_future()
+        if oc == 'Canc':
+            f.cancel()
+        elif oc == 'Exc':
+            f.set_exception(KeyError())
+            f.exception()            # retrieved: no 'never retrieved' report at collection
+        else:
+            f.set_result(None if oc == 'RetNone' else 7)
+        f._daemon = daemon
+        self.ids[f] = tid
+        return f
+
+    def add_done(self, tid, daemon, oc):
+        """TaskGroup.add_task() of an already finished future; RuntimeError if the group refuses"""
+        f = self.mk_done(tid, daemon, oc)
+        try:
+            try:
+                self.g.add_task(f).send(None)
+            except StopIteration:
+                pass
+        except RuntimeError:
+            del self.ids[f]
+            raise
+        if not daemon:
+            self.accepted_nd.add(tid)
+
     def mk_member(self, tid, react, daemon):
+        self._mk_member(tid, react, daemon)
+        if not daemon:
+            self.accepted_nd.add(tid)
+
+    def _mk_member(self, tid, react, daemon):
         self.go[tid] = self.loop.create_future()
         self.go2[tid] = self.loop.create_future()
         coro = self.g.spawn(self.member(tid, react), daemon=daemon)
@@ -160,7 +203,10 @@ class Real:
                 q.append(['ondone', c[1]])
             elif c[0] == 'pop':
                 q.append(['pop', c[1]])
-        return {'pending': sorted(self.ids[t] for t in g._pending), 'daemons': sorted(self.ids[t] for t in g.daemons),
+        tasks = sorted(self.ids.get(t, -1) for t in g.tasks)
+        want = sorted(self.accepted_nd) if self.retain else sorted(self.ids[t] for t in g._pending)
+        return {'tasks_ok': tasks == want, 'tasks': tasks,
+                'pending': sorted(self.ids[t] for t in g._pending), 'daemons': sorted(self.ids[t] for t in g.daemons),
                 'doneq': [self.ids[t] for t in g._done], 'semv': g._semaphore._value, 'joined': g.joined,
                 'completed': self.ids.get(g.completed) if g.completed is not None else None,
                 'finished': sorted(i for t, i in self.ids.items() if i != 0 and t.done()),
@@ -170,10 +216,12 @@ class Real:
 
 
 def run_case(case):
-    R = Real(case['policy'])
+    R = Real(case['policy'], case.get('retain', False), case.get('init', ()))
     try:
         trace = []
         oracle = {'join_end': None}
+        for k, (dm, oc) in enumerate(case.get('init', ())):
+            trace.append([['spawn', 3000 + k, dm, oc], R.snapshot() if k == len(case['init']) - 1 else None])
         for i, m in enumerate(case['members']):
             tid = i + 1
             R.mk_member(tid, m['react'], m['daemon'])
@@ -218,6 +266,14 @@ def run_case(case):
                 except RuntimeError:
                     pass
                 label = ['spawn', new, act[1]]
+            elif kind == 'addfin':
+                # somebody adds a task that has already finished (add_task)
+                new = 4000 + sum(1 for l, _ in trace if l[0] == 'spawn' and 4000 <= l[1] < 5000)
+                try:
+                    R.add_done(new, act[1], act[2])
+                except RuntimeError:
+                    pass
+                label = ['spawn', new, act[1], act[2]]
             elif kind == 'cancelJ':
                 if not started or R.J.done():
                     continue
@@ -286,7 +342,10 @@ def run_case(case):
         res = {'trace': trace, 'props': props, 'join_end': oracle['join_end'], 'late_add': late,
                'outcomes': {str(i): R.outcome(i) for t, i in R.ids.items() if i != 0 and i < 5000},
                'completed': R.ids.get(g.completed) if g.completed is not None else None,
-               'joined': g.joined, 'spawn_errors': R.spawn_errors}
+               'joined': g.joined, 'spawn_errors': R.spawn_errors, 'loop_errors': ['%s %r' % (c.get('message'), c.get('exception')) for c in R.loop.exc],
+               'retained': None}
+        if g.joined and case.get('retain'):
+            res['retained'] = sorted(R.ids.get(t, -1) for t in g.tasks) == sorted(R.accepted_nd)
         # let everything finish so that no task is left behind
         for t in list(R.ids):
             if not t.done():
@@ -310,7 +369,7 @@ def handle_term(h):
 def label_term(l):
     k = l[0]
     if k == 'spawn':
-        return f"(LSpawn {c_N(l[1])} {c_bool(l[2])} None)"
+        return f"(LSpawn {c_N(l[1])} {c_bool(l[2])} {'None' if len(l) < 4 or l[3] is None else '(Some ' + l[3] + ')'})"
     if k == 'finish':
         return f"(LFinish {c_N(l[1])} {l[2]})"
     if k == 'cancelM':
@@ -368,10 +427,14 @@ def gen_case(rng, opts=None):
             actions.append(['cancelJ'])
         elif r < 0.96:
             actions.append(['cancelM', rng.randrange(8)])
-        elif r < 0.98:
+        elif r < 0.975:
             actions.append(['spawn', rng.random() < 0.3])
+        elif r < 0.99:
+            actions.append(['addfin', rng.random() < 0.25, rng.choice(['RetNone', 'RetVal', 'RetVal', 'Exc', 'Canc'])])
         else:
             actions.append(['tick'])
     actions += [['start']] + [['tick']] * 3
-    return {'policy': rng.choice(['all', 'all', 'any', 'object', 'none']),
+    init = [[rng.random() < 0.25, rng.choice(['RetNone', 'RetVal', 'RetVal', 'Exc', 'Canc'])]
+            for _ in range(rng.choice([0, 0, 0, 0, 1, 2]))]
+    return {'policy': rng.choice(['all', 'all', 'any', 'object', 'none']), 'retain': rng.random() < 0.4, 'init': init,
             'mode': rng.choice(['join', 'join', 'aexit', 'aexit_exc']), 'members': members, 'actions': actions}
